@@ -316,6 +316,27 @@ func (s *Sim) nextRPCFault() int {
 	return f
 }
 
+// unlinkedSegment: the served segment with the first block of a Byzantine generator re-signed over another
+// previousBlockID (everything else about it stays valid: it is signed by the rightful generator of its slot).
+func (s *Sim) unlinkedSegment(respData []byte) []byte {
+	resp := &csync.GetBlocksFromIDResponse{}
+	if err := resp.Decode(respData); err != nil || s.Adv == nil {
+		return nil
+	}
+	for _, b := range resp.Blocks {
+		v := s.Adv.Keys[string(b.Header.GeneratorAddress)]
+		if v == nil {
+			continue
+		}
+		prev := append([]byte(nil), b.Header.PreviousBlockID...)
+		prev[len(prev)/2] ^= 1
+		b.Header.PreviousBlockID = prev
+		b.Header.Sign(s.P.ChainID, v.GenPriv)
+		return resp.Encode()
+	}
+	return nil
+}
+
 // rpcLieNow returns the pre-drawn lie of the current request (-1: none).
 func (s *Sim) rpcLieNow() int {
 	s.rpcMu.Lock()
@@ -401,6 +422,16 @@ func (s *Sim) Request(ctx context.Context, from, to p2p.PeerID, procedure string
 				if hd, err := an.Chain.DataAccess().GetBlockHeaderByHeight(uint32(h)); err == nil {
 					respData = (&csync.GetHighestCommonBlockResponse{ID: hd.ID}).Encode()
 					s.count("byz_lying_common_block")
+				}
+			}
+		}
+		if lie := s.rpcLieNow(); lie >= 0 && respErr == nil && procedure == "getBlocksFromId" {
+			// a Byzantine peer serves its own block re-signed over a different previousBlockID: valid in every respect
+			// except that it does not build on the block before it
+			if rn := s.nodeByPeer(to); rn != nil && rn.IsAdversary {
+				if alt := s.unlinkedSegment(respData); alt != nil {
+					respData = alt
+					s.count("byz_serving_unlinked_block")
 				}
 			}
 		}
